@@ -53,6 +53,10 @@ INNERS = {
     "tells": "Struct('t0'/Tell, 'b'/Byte, 't1'/Tell, 'g'/GreedyBytes)",
     "rawcopy": "RawCopy(Int16ub)",
     "pointer": None,     # Pointer(<absolute offset>, Byte) -- offset filled in per instance
+    # a look at the outermost stream from inside the region (Pointer with stream=): neither the region nor the outer stream may move
+    "sideptr": "Struct('a'/Byte, 'm'/Pointer(0, Byte, stream=this._params.outer), 'here'/Tell, 'rest'/GreedyBytes)",
+    # zero-size members that observe the END of the region, in a construct whose static size (3) is exactly FixedSized(3, ..)'s length
+    "endobs": "Struct('id'/Byte, 'whole'/Peek(GreedyBytes), 'last'/Pointer(-1, Byte), 'v'/Int16ub)",
 }
 
 
@@ -214,7 +218,7 @@ def harness(ctx, C, p):
         d = d.compile()
     st = ctx.stream(data)
     st.seek(s)
-    r = api.outcome(d.parse_stream, st, key=key, t=t)
+    r = api.outcome(d.parse_stream, st, key=key, t=t, outer=st)
     if rejected is not None:
         ctx.check("a region that does not fit / lacks its terminator is rejected", (not r.ok) and isinstance(r.exc, C.ConstructError))
         return "region-reject"
@@ -255,6 +259,22 @@ def harness(ctx, C, p):
         ctx.check("RawCopy offsets are absolute and data is the region slice",
                   api.and_terms([ctx.eq(v.offset1, base), ctx.eq(v.offset2, base + 2), ctx.eq(v.length, 2), ctx.eq(v.data, mkbytes(buf[:2])),
                                  ctx.eq(v.value, buf[0] * 256 + buf[1])]))
+    elif inner == "sideptr":
+        if len(buf) < 1:
+            ctx.check("empty region: inner Byte fails with StreamError", (not r.ok) and isinstance(r.exc, C.StreamError))
+            return "inner-reject"
+        ctx.check("parse succeeds", r.ok)
+        v = r.value
+        ctx.check("a Pointer into the outermost stream reads that stream's byte and moves neither stream",
+                  api.and_terms([ctx.eq(v.a, buf[0]), ctx.eq(v.m, data[0]), ctx.eq(v.here, base + 1), ctx.eq(v.rest, mkbytes(buf[1:]))]))
+    elif inner == "endobs":
+        if len(buf) < 3:
+            ctx.check("short region: rejected with StreamError", (not r.ok) and isinstance(r.exc, C.StreamError))
+            return "inner-reject"
+        ctx.check("parse succeeds", r.ok)
+        v = r.value
+        ctx.check("members observing the end of the stream see the end of the region, not beyond",
+                  api.and_terms([ctx.eq(v.id, buf[0]), ctx.eq(v.whole, mkbytes(buf[1:])), ctx.eq(v.last, buf[-1]), ctx.eq(v.v, buf[1] * 256 + buf[2])]))
     elif inner == "pointer":
         if len(buf) < 2:
             if p.get("compiled"):
